@@ -133,7 +133,7 @@ def _mem_index(case, v):
     for st in case["prog"]["steps"]:
         if st["op"] == "getitem":
             for e in st["p"]["idx"]:
-                if e[0] == "a" or (e[0] == "s" and e[3] not in (None, 1)):
+                if e[0] in ("a", "m") or (e[0] == "s" and e[3] not in (None, 1)):
                     return True
     return False
 
